@@ -4,17 +4,17 @@ state that satisfies `Post` — whatever the crash point and the faults.
 -/
 import Octave.Lemmas.Inv
 namespace Octave
-variable {H : Data → Hash} {c : Call} {fs0 : Fs}
+variable {S : Strict} {H : Data → Hash} {c : Call} {fs0 : Fs}
 
 /-- What the discipline guarantees about the outcome of a run. -/
-def Post (H : Data → Hash) (c : Call) (fs0 : Fs) (out : Out) : Prop :=
+def Post (S : Strict) (H : Data → Hash) (c : Call) (fs0 : Fs) (out : Out) : Prop :=
   match out.res with
-  | .crashed => out.st.fs c.target = fs0 c.target ∨ Installed H c fs0 out.st.regs out.st.fs
-  | .ok h => ∃ a, Inv H c fs0 a out.st.regs out.st.fs out.st.cf ∧ h = H (c.canon out.st.regs.base) ∧
+  | .crashed => out.st.fs c.target = fs0 c.target ∨ Installed S H c fs0 out.st.regs out.st.fs
+  | .ok h => ∃ a, Inv S H c fs0 a out.st.regs out.st.fs out.st.cf ∧ h = H (c.canon out.st.regs.base) ∧
       (if c.dry = true then a.mutd = false ∧ a.tmp = .none else a.tmp = .installed)
-  | .err code => ∃ a, Inv H c fs0 a out.st.regs out.st.fs out.st.cf ∧ a.errOk = true ∧
-      (code.isValidation = true → a.mutd = false) ∧ (c.dry = true → a.mutd = false)
-  | .raised => ∃ a, Inv H c fs0 a out.st.regs out.st.fs out.st.cf ∧ a.errOk = true ∧ (c.dry = true → a.mutd = false)
+  | .err code => ∃ a, Inv S H c fs0 a out.st.regs out.st.fs out.st.cf ∧ a.errOk = true ∧
+      (S.atomic = true → code.isValidation = true → a.mutd = false) ∧ (c.dry = true → a.mutd = false)
+  | .raised => ∃ a, Inv S H c fs0 a out.st.regs out.st.fs out.st.cf ∧ a.errOk = true ∧ (c.dry = true → a.mutd = false)
 
 theorem isPrefixOf_take (l m : Path) (k : Nat) (h : l.isPrefixOf (m.take k) = true) : l.isPrefixOf m = true := by
   induction l generalizing m k with
@@ -41,7 +41,7 @@ theorem flushTo_other (fs : Fs) (p q : Path) (d : Data) (h : q ≠ p) : flushTo 
 
 /-- An op interrupted in the middle does not touch the target. -/
 theorem crash_target (hc : CallOK c fs0) {hb : Bool} {a aOk aFail : Abs} {o : Op} {r : Regs} {fs : Fs} {cf : Bool}
-    (hI : Inv H c fs0 a r fs cf) (hs : a.step hb o = some (aOk, aFail)) (cut : Nat) :
+    (hI : Inv S H c fs0 a r fs cf) (hs : a.step S hb o = some (aOk, aFail)) (cut : Nat) :
     (partialOp c cut o r fs) c.target = fs c.target := by
   have hp := hI.hp
   have hne : c.target ≠ c.tmpName := fun h => hc.tmp_ne h.symm
@@ -67,8 +67,8 @@ theorem crash_target (hc : CallOK c fs0) {hb : Bool} {a aOk aFail : Abs} {o : Op
 
 /-! ### Pure nodes -/
 
-theorem inv_saveExisted {a : Abs} {r : Regs} {fs : Fs} {cf : Bool} (hI : Inv H c fs0 a r fs cf) :
-    Inv H c fs0 { a with exProbe := decide (a.lastA = .targetExists ∧ a.tmp ≠ .installed) }
+theorem inv_saveExisted {a : Abs} {r : Regs} {fs : Fs} {cf : Bool} (hI : Inv S H c fs0 a r fs cf) :
+    Inv S H c fs0 { a with exProbe := decide (a.lastA = .targetExists ∧ a.tmp ≠ .installed) }
       (RegOp.saveExisted.apply r) fs cf := by
   obtain ⟨frame, clean, tgt, inst, tnone, tsome, tgone, tlive, bufB, bufE, hp, ho, chmK, modeS, modeA, modeN, lastT, lastP, lastF, cfI, casR, casV, casA, exI⟩ := hI
   constructor
@@ -79,8 +79,8 @@ theorem inv_saveExisted {a : Abs} {r : Regs} {fs : Fs} {cf : Bool} (hI : Inv H c
     rw [lastT h.1, tgt h.2]
   all_goals (first | assumption | (simp only [RegOp.apply]; assumption))
 
-theorem inv_seenAbsent {a : Abs} {r : Regs} {fs : Fs} {cf : Bool} (hI : Inv H c fs0 a r fs cf)
-    (hl : a.lastA = .targetExists) (hf : r.last = false) : Inv H c fs0 a.seenAbsent r fs cf := by
+theorem inv_seenAbsent {a : Abs} {r : Regs} {fs : Fs} {cf : Bool} (hI : Inv S H c fs0 a r fs cf)
+    (hl : a.lastA = .targetExists) (hf : r.last = false) : Inv S H c fs0 a.seenAbsent r fs cf := by
   have h0 : fs c.target = none := by
     have := hI.lastT hl
     rw [hf] at this
@@ -104,14 +104,14 @@ theorem inv_seenAbsent {a : Abs} {r : Regs} {fs : Fs} {cf : Bool} (hI : Inv H c 
       all_goals (first | assumption | simp_all)
     · exact hI
 
-theorem inv_casAbsent {a : Abs} {r : Regs} {fs : Fs} {cf : Bool} (hI : Inv H c fs0 a r fs cf)
-    (h2 : fs0 c.target = none) : Inv H c fs0 { a with cas := .absent } r fs cf := by
+theorem inv_casAbsent {a : Abs} {r : Regs} {fs : Fs} {cf : Bool} (hI : Inv S H c fs0 a r fs cf)
+    (h2 : fs0 c.target = none) : Inv S H c fs0 { a with cas := .absent } r fs cf := by
   obtain ⟨frame, clean, tgt, inst, tnone, tsome, tgone, tlive, bufB, bufE, hp, ho, chmK, modeS, modeA, modeN, lastT, lastP, lastF, cfI, casR, casV, casA, exI⟩ := hI
   constructor
   all_goals (first | assumption | simp_all)
 
-theorem inv_verified {a : Abs} {r : Regs} {fs : Fs} {cf : Bool} (hI : Inv H c fs0 a r fs cf)
-    (h1 : a.cas = .reread) (h2 : some (H r.verify) = c.baseHash) : Inv H c fs0 { a with cas := .verified } r fs cf := by
+theorem inv_verified {a : Abs} {r : Regs} {fs : Fs} {cf : Bool} (hI : Inv S H c fs0 a r fs cf)
+    (h1 : a.cas = .reread) (h2 : some (H r.verify) = c.baseHash) : Inv S H c fs0 { a with cas := .verified } r fs cf := by
   obtain ⟨d, m, sy, e1, e2⟩ := hI.casR h1
   obtain ⟨frame, clean, tgt, inst, tnone, tsome, tgone, tlive, bufB, bufE, hp, ho, chmK, modeS, modeA, modeN, lastT, lastP, lastF, cfI, casR, casV, casA, exI⟩ := hI
   constructor
@@ -122,7 +122,7 @@ theorem inv_verified {a : Abs} {r : Regs} {fs : Fs} {cf : Bool} (hI : Inv H c fs
 
 /-- Clean-up ops do not fail on their own when the invariant holds. -/
 theorem cleanup_succeeds {hb : Bool} {a aOk aFail : Abs} {o : Op} {r : Regs} {fs : Fs} {cf : Bool}
-    (hI : Inv H c fs0 a r fs cf) (hs : a.step hb o = some (aOk, aFail)) (hcl : o.isCleanup = true) :
+    (hI : Inv S H c fs0 a r fs cf) (hs : a.step S hb o = some (aOk, aFail)) (hcl : o.isCleanup = true) :
     ∃ pr, doOp c o r fs = .ok pr := by
   cases o with
   | unlink l =>
@@ -147,8 +147,8 @@ theorem cleanup_succeeds {hb : Bool} {a aOk aFail : Abs} {o : Op} {r : Regs} {fs
   | _ => simp [Op.isCleanup] at hcl
 
 /-- `Post`, plus: without injected faults no clean-up call fails. -/
-def PostW (H : Data → Hash) (c : Call) (fs0 : Fs) (w : World) (out : Out) : Prop :=
-  Post H c fs0 out ∧ ((∀ n, w.fault n = none) → out.st.cf = false) ∧ (w.crashAt = none → out.res ≠ .crashed)
+def PostW (S : Strict) (H : Data → Hash) (c : Call) (fs0 : Fs) (w : World) (out : Out) : Prop :=
+  Post S H c fs0 out ∧ ((∀ n, w.fault n = none) → out.st.cf = false) ∧ (w.crashAt = none → out.res ≠ .crashed)
 
 theorem ite_post {P : Out → Prop} (b : Bool) (x y : Out) (hx : P x) (hy : P y) :
     P (if b = true then x else y) := by
@@ -157,8 +157,8 @@ theorem ite_post {P : Out → Prop} (b : Bool) (x y : Out) (hx : P x) (hy : P y)
   · exact hx
 
 theorem run_post (hc : CallOK c fs0) (w : World) :
-    ∀ (p : Prog) (a : Abs) (s : St), p.disciplined c.params a = true → Inv H c fs0 a s.regs s.fs s.cf →
-      ((∀ n, w.fault n = none) → s.cf = false) → PostW H c fs0 w (run H c w p s) := by
+    ∀ (p : Prog) (a : Abs) (s : St), p.disciplined S c.params a = true → Inv S H c fs0 a s.regs s.fs s.cf →
+      ((∀ n, w.fault n = none) → s.cf = false) → PostW S H c fs0 w (run H c w p s) := by
   intro p
   induction p with
   | ret r =>
@@ -179,7 +179,7 @@ theorem run_post (hc : CallOK c fs0) (w : World) :
       simp only [run, retResult, Post]
       simp only [Prog.disciplined, Call.params, Bool.and_eq_true] at hd
       refine ⟨a, hI, hd.1.1, ?_, ?_⟩
-      · intro hv; have := hd.1.2; simp [hv] at this; exact this
+      · intro hat hv; have := hd.1.2; simp [hv, hat] at this; exact this
       · intro hv; have := hd.2; simp [hv] at this; exact this
   | raise =>
     intro a s hd hI hcf
@@ -280,20 +280,20 @@ theorem run_post (hc : CallOK c fs0) (w : World) :
           exact inv_verified hI h1 (by simpa [evalCond] using hv)
         · exact hI
     all_goals (
-      rw [Prog.disciplined.eq_10 _ _ _ _ _ (by intro h; cases h) (by intro h; cases h) (by intro h; cases h)
+      rw [Prog.disciplined.eq_10 _ _ _ _ _ _ (by intro h; cases h) (by intro h; cases h) (by intro h; cases h)
         (by intro h; cases h)] at hd
       simp only [Bool.and_eq_true] at hd
       exact ite_post _ _ _ (ihx a s hd.1 hI hcf) (ihy a s hd.2 hI hcf))
   | op o k kf ihk ihkf =>
     intro a s hd hI hcf
     simp only [Prog.disciplined] at hd
-    cases hs : a.step c.params.hasBase o with
+    cases hs : a.step S c.params.hasBase o with
     | none => simp [hs] at hd
     | some pr =>
       obtain ⟨aOk, aFail⟩ := pr
       simp only [hs, Bool.and_eq_true] at hd
       obtain ⟨hk, hkf⟩ := hd
-      have hs' : a.step c.baseHash.isSome o = some (aOk, aFail) := hs
+      have hs' : a.step S c.baseHash.isSome o = some (aOk, aFail) := hs
       obtain ⟨hf1, hf2⟩ := inv_fail hI hs'
       simp only [run]
       by_cases hcr : w.crashAt = some s.n
@@ -306,12 +306,12 @@ theorem run_post (hc : CallOK c fs0) (w : World) :
           · rfl
         by_cases hi : a.tmp = .installed
         · right
-          obtain ⟨m, h1, h2, h3⟩ := hI.inst hi
-          exact ⟨m, by rw [ht]; exact h1, h2, h3⟩
+          obtain ⟨m, sy, h1, h2, h3⟩ := hI.inst hi
+          exact ⟨m, sy, by rw [ht]; exact h1, h2, h3⟩
         · left; rw [ht]; exact hI.tgt hi
       · simp only [hcr, if_false]
         have hfail : ∀ e, ((∀ n, w.fault n = none) → (s.cf || o.isCleanup) = false) →
-            PostW H c fs0 w (if o.swallows = true then
+            PostW S H c fs0 w (if o.swallows = true then
               run H c w k { s with regs := swallowRegs o s.regs, n := s.n + 1, trace := ⟨o, false⟩ :: s.trace, cf := s.cf || o.isCleanup }
             else
               run H c w kf { s with regs := { s.regs with exc := some e }, n := s.n + 1, trace := ⟨o, false⟩ :: s.trace, cf := s.cf || o.isCleanup }) := by
@@ -340,17 +340,17 @@ theorem run_post (hc : CallOK c fs0) (w : World) :
               rw [hpr] at hdo; cases hdo
 
 /-- A complete call of a disciplined entry point. -/
-theorem exec_post (H : Data → Hash) (s : Stmt) (c : Call) (w : World) (fs : Fs) (hc : CallOK c fs)
-    (hd : s.disciplined c.params = true) : Post H c fs (exec H s c w fs) :=
-  (run_post hc w _ {} { fs := fs } hd (Inv.init H c fs hc) (fun _ => rfl)).1
+theorem exec_post (S : Strict) (H : Data → Hash) (s : Stmt) (c : Call) (w : World) (fs : Fs) (hc : CallOK c fs)
+    (hd : s.disciplined S c.params = true) : Post S H c fs (exec H s c w fs) :=
+  (run_post hc w _ {} { fs := fs } hd (Inv.init S H c fs hc) (fun _ => rfl)).1
 
 /-- Without injected faults no clean-up call fails. -/
-theorem exec_not_crashed (H : Data → Hash) (s : Stmt) (c : Call) (w : World) (fs : Fs) (hc : CallOK c fs)
-    (hd : s.disciplined c.params = true) (hnc : w.crashAt = none) : (exec H s c w fs).res ≠ .crashed :=
-  (run_post hc w _ {} { fs := fs } hd (Inv.init H c fs hc) (fun _ => rfl)).2.2 hnc
+theorem exec_not_crashed (S : Strict) (H : Data → Hash) (s : Stmt) (c : Call) (w : World) (fs : Fs) (hc : CallOK c fs)
+    (hd : s.disciplined S c.params = true) (hnc : w.crashAt = none) : (exec H s c w fs).res ≠ .crashed :=
+  (run_post hc w _ {} { fs := fs } hd (Inv.init S H c fs hc) (fun _ => rfl)).2.2 hnc
 
-theorem exec_cf (H : Data → Hash) (s : Stmt) (c : Call) (w : World) (fs : Fs) (hc : CallOK c fs)
-    (hd : s.disciplined c.params = true) (hnf : ∀ n, w.fault n = none) : (exec H s c w fs).st.cf = false :=
-  (run_post hc w _ {} { fs := fs } hd (Inv.init H c fs hc) (fun _ => rfl)).2.1 hnf
+theorem exec_cf (S : Strict) (H : Data → Hash) (s : Stmt) (c : Call) (w : World) (fs : Fs) (hc : CallOK c fs)
+    (hd : s.disciplined S c.params = true) (hnf : ∀ n, w.fault n = none) : (exec H s c w fs).st.cf = false :=
+  (run_post hc w _ {} { fs := fs } hd (Inv.init S H c fs hc) (fun _ => rfl)).2.1 hnf
 
 end Octave
